@@ -71,6 +71,10 @@ def userspace_strategy():
         "group": groups.fast_group_strategy(
             max_terminals=2,
             types=["AnalogOutput", "DigitalOutput", "AnalogInput", "Custom"]),
+        "aerotech": st.lists(st.booleans(), min_size=2, max_size=2),
+        # the ethertype this process listens on (a ParallelEtherCat process
+        # that is not the first one gets a random one)
+        "ethertype": st.sampled_from([0x88A4, 0x3abc, 0x5fff, 0x3000]),
         "lose": st.lists(st.integers(0, 8), max_size=2, unique=True),
         "active": st.lists(st.booleans(), min_size=4, max_size=4),
         "loopbyte": st.integers(1, 255),
@@ -89,6 +93,8 @@ def run_userspace(case):
     real_mono = ebmod.monotonic
     ebmod.SyncGroup.packet_index = 1000
     classes = ["userspace"]
+    if any(case.get("aerotech", [])):
+        classes.append("aerotech-terminal")
 
     async def go(loop):
         ebmod.monotonic = loop.time
@@ -115,11 +121,17 @@ def run_userspace(case):
                 back[start] = cmd.value
             return bytes(back)
 
-        rig = cyclic.Rig(loop, case["group"], "fast", fault=fault,
+        group = dict(case["group"], terminals=[
+            dict(t, aerotech=bool(a) and all(
+                v["via"] == "packet" for v in t["in"] + t["out"]))
+            for t, a in zip(case["group"]["terminals"],
+                            list(case.get("aerotech", [])) + [False] * 4)])
+        rig = cyclic.Rig(loop, group, "fast", fault=fault,
                          on_response=on_response)
         obs["rig"] = rig
         for t in rig.sg.terminals:
             t.fmmu_used = [None] * 4
+        rig.ec.ethertype = case.get("ethertype", 0x88A4)
         task = rig.sg.start()
         for _ in range(4000):
             await asyncio.sleep(0.001)
@@ -166,14 +178,33 @@ def run_userspace(case):
         return fail(f"the group task ended as '{obs.get('end')}'")
     if len(sent) < 6:
         return fail(f"only {len(sent)} cyclic transmissions in 4 s")
+    from ..sim import frames as simframes
+    WRITE_CMDS = {2, 3, 5, 6, 8, 9, 11, 12, 13, 14}
     for i, f in enumerate(sent):
         bad = [start for start, stop, cmd in writers if f[start] != 0]
         if bad:
             return fail(f"cyclic transmission {i} left user space with "
                         f"enabled write datagrams at {bad}")
+        # independent of the library's list of write datagrams: no datagram
+        # of the frame may carry a write command
+        try:
+            _, _, dgs, _ = simframes.parse(f)
+        except simframes.FrameError as e:
+            return fail(f"cyclic transmission {i} does not parse: {e}")
+        wr = [(d.cmd, d.addr) for d in dgs if d.cmd in WRITE_CMDS]
+        if wr:
+            return fail(f"cyclic transmission {i} left user space with the "
+                        f"write datagram(s) {wr} enabled")
         if f[3] != 0:
             return fail(f"cyclic transmission {i} left user space with loop "
                         f"counter {f[3]} (a fresh frame carries 0)")
+        et, = struct.unpack_from("<H", f, 12)
+        if et != case.get("ethertype", 0x88A4):
+            return fail(f"cyclic transmission {i} names ethertype {et:#x} "
+                        f"in its identification datagram, this process "
+                        f"listens on {case.get('ethertype', 0x88A4):#x} "
+                        f"(the dispatcher would hand the frame to somebody "
+                        f"else)")
     lost = [i for i in case["lose"] if i < len(sent) - 1]
     return dict(ok=True,
                 nontrivial=bool(writers) and any(case["active"]),
